@@ -167,7 +167,14 @@ func (language *Language) CompilerPasses() compiler.Passes {
 		},
 		// inlining a named `null` (`Nothing: null`, `v: string | Nothing`) leaves `T | null` behind too
 		&compiler.DisjunctionWithNullToOptional{},
+		// members named after operators (`"<"`, `">"`) or names that only differ by case
+		&compiler.EnumMemberIdentifiers{Language: LanguageRef, Identifier: enumMemberIdentifier},
 	}
+}
+
+// enumMemberIdentifier gives the name of the static method declared for an enum member.
+func enumMemberIdentifier(member ast.EnumValue) string {
+	return formatEnumMemberName(member.Name)
 }
 
 func (language *Language) NullableKinds() languages.NullableConfig {
